@@ -250,6 +250,10 @@ def report(pid, tier, seed, mod, outs, wall, verbose=False, partial=False):
                 known_hits.append((k, c))
             else:
                 violations.append(c)
+    if not partial:
+        for t in getattr(mod, "EXPECT_GLOBAL_TAGS", ()):
+            if t not in tags:
+                inconclusive.append("vacuity guard: no path of any job reached '%s'" % t)
     # ---- output
     os.makedirs(os.path.join(ROOT, "evidence"), exist_ok=True)
     os.makedirs(os.path.join(ROOT, "replays", pid), exist_ok=True)
